@@ -87,7 +87,7 @@ NC == [alpha |-> cfg.A.G, dL |-> [jj \in 1..K |-> cfg.Ls[jj].G], dR |-> [jj \in 
 AsFn(p) == [s \in x.S |-> CASE s[1] = "H" -> p.H [] s[1] = "G" -> p.G[s[2]+1] [] s[1] = "Gi" -> p.Gi[s[2]+1] [] s[1] = "Hi" -> p.Hi[s[2]+1]]
 
 \* reductions of the 64-byte outputs of generators on the prover's transcript whose build saw at least `need`
-FillsAfterU(need) == UNION { { Reduce(rng[rid].fills[f].wide) : f \in {g \in 1..Len(rng[rid].fills) : rng[rid].fills[g].len = 64} } :
+FillsAfterU(need) == UNION { { Reduce(Rec[rng[rid].fills[f].pos].wide) : f \in {g \in 1..Len(rng[rid].fills) : rng[rid].fills[g].len = 64} } :
                              rid \in {q \in DOMAIN rng : rng[q].tid = cfg.tid /\ need \subseteq rng[q].absAt} }
 StmtToks == {cfg.tok.H} \cup {cfg.tok.G[kk] : kk \in 1..cfg.t} \cup {cfg.tok.C[jj] : jj \in 1..cfg.m}
 AfterRound(jj) == StmtToks \cup {cfg.tok.A} \cup {cfg.tok.L[i] : i \in 1..jj} \cup {cfg.tok.R[i] : i \in 1..jj}
@@ -112,9 +112,9 @@ NoncesOk ==
 PRetStart == /\ Is("PRet") /\ pc = "run"
              /\ IF CheckArith /\ cfg.arith
                 THEN /\ Len(Ch) = K + 3 /\ Pw(K) = cfg.nm
-                     /\ x' = [c |-> [y |-> Reduce(Ch[1].wide), z |-> Reduce(Ch[2].wide), e |-> Reduce(Ch[K+3].wide),
-                                     es |-> [jj \in 1..K |-> Reduce(Ch[2+jj].wide)], yinv |-> Ch[1].inv,
-                                     esinv |-> [jj \in 1..K |-> Ch[2+jj].inv]],
+                     /\ x' = [c |-> [y |-> Reduce(Rec[Ch[1].pos].wide), z |-> Reduce(Rec[Ch[2].pos].wide), e |-> Reduce(Rec[Ch[K+3].pos].wide),
+                                     es |-> [jj \in 1..K |-> Reduce(Rec[Ch[2+jj].pos].wide)], yinv |-> Rec[Ch[1].pos].inv,
+                                     esinv |-> [jj \in 1..K |-> Rec[Ch[2+jj].pos].inv]],
                               nc |-> NC]
                      /\ pc' = "ctx" /\ UNCHANGED l
                 ELSE /\ pc' = "idle" /\ l' = l + 1 /\ UNCHANGED x
